@@ -1,6 +1,6 @@
 import json,sys,glob,os
 pid=sys.argv[1]; n=sys.argv[2] if len(sys.argv)>2 else "3"; rnd=sys.argv[3] if len(sys.argv)>3 else "2"
-base=os.popen("python3 /tmp/mutprompt.py %s %s"%(pid,n)).read()
+base=os.popen("python3 /verif/bin/mutprompt.py %s %s"%(pid,n)).read()
 base=base.replace("/tmp/mut-%s"%pid.lower(), "/tmp/mut%s-%s"%(rnd,pid.lower())).replace("/tmp/wt-%s"%pid.lower(), "/tmp/wt%s-%s"%(rnd,pid.lower()))
 tried=[]
 for d in sorted(glob.glob("/verif/seeded/%s-ind*-m*"%pid)):
